@@ -1,5 +1,7 @@
 package ovsdb
 
+import "encoding/json"
+
 // TableUpdates2 is an object that maps from a table name to a
 // TableUpdate2
 type TableUpdates2 map[string]TableUpdate2
@@ -9,6 +11,26 @@ type TableUpdates2 map[string]TableUpdate2
 type TableUpdate2 map[string]*RowUpdate2
 
 // RowUpdate2 represents a row update according to ovsdb-server.7
+// UnmarshalJSON decodes a row update; a row that is deleted may be announced
+// with null in place of its contents: "delete" is what matters
+func (r *RowUpdate2) UnmarshalJSON(b []byte) error {
+	type plain RowUpdate2
+	var p plain
+	if err := json.Unmarshal(b, &p); err != nil {
+		return err
+	}
+	if p.Delete == nil {
+		var members map[string]json.RawMessage
+		if err := json.Unmarshal(b, &members); err == nil {
+			if _, ok := members["delete"]; ok {
+				p.Delete = &Row{}
+			}
+		}
+	}
+	*r = RowUpdate2(p)
+	return nil
+}
+
 type RowUpdate2 struct {
 	Initial *Row `json:"initial,omitempty"`
 	Insert  *Row `json:"insert,omitempty"`
